@@ -12,6 +12,7 @@
 #include <dlfcn.h>
 #include <cerrno>
 #include <cstdarg>
+#include <climits>
 #include <map>
 
 namespace c18 {
